@@ -191,6 +191,7 @@ def mono(vc):
     else:
         from resonaate.physics.time.stardate import JulianDate, ScenarioTime
         jd0 = JulianDate(vc.real("jd0", 2415385.0, 2488070.0))
+        k = k % (10 ** 7 // dt + 1)  # (native sampling: keep the product inside the assumed range)
         vc.assume(k * dt <= 10 ** 7)
         vc.ensure("O-C01-mono", float(ScenarioTime((k + 1) * dt).convertToJulianDate(jd0)) > float(ScenarioTime(k * dt).convertToJulianDate(jd0)))
 
